@@ -13,6 +13,10 @@ package c17
 // The L1 "script" is generated online (one more item is one more explorer choice), which is the same set of runs
 // as "for every script, every interleaving", but shares prefixes. The well-behavedness assumptions of the property
 // restrict which items / finalised heights are *enabled*; they never weaken the oracle (see enabled()).
+//
+// Replays are executed by GOMAXPROCS=1 worker processes (pool_test.go); the BFS, the visited set and all verdicts
+// live in the parent. Development aids: VERIF_C17_N, VERIF_C17_SELFCHECK_N, VERIF_C17_FULLKEY, VERIF_C17_TRACE,
+// VERIF_C17_PROF, VERIF_C17_WORKERS.
 
 import (
 	"context"
@@ -194,20 +198,21 @@ type world struct {
 	expEmit []int // model: emissions expected during the current step
 
 	// client mode as tracked by the harness
-	pending    *call
-	retry      byte // kind of the call whose failure the client is sleeping on, 0 if none
-	probeNext  bool // next FinalisedHeight call is the catch-up probe, not a setL1Head
-	catchup    bool
-	subscribed bool
-	sink       chan<- *l1.StateUpdate
-	sub        *scriptSub
-	t0         time.Time // creation time of the poll ticker
-	t0set      bool
-	leftSelect time.Time
-	inExc      bool // the client is away from its main select (handling a tick or a subscription error)
-	excEnding  bool
-	exited     bool
-	exitErr    string
+	pending     *call
+	retry       byte // kind of the call whose failure the client is sleeping on, 0 if none
+	probeNext   bool // next FinalisedHeight call is the catch-up probe, not a setL1Head
+	catchup     bool
+	stepCatchup bool
+	subscribed  bool
+	sink        chan<- *l1.StateUpdate
+	sub         *scriptSub
+	t0          time.Time // creation time of the poll ticker
+	t0set       bool
+	leftSelect  time.Time
+	inExc       bool // the client is away from its main select (handling a tick or a subscription error)
+	excEnding   bool
+	exited      bool
+	exitErr     string
 
 	// implementation observations
 	p          *prov
@@ -379,6 +384,7 @@ var errScripted = errors.New("scripted failure")
 func (w *world) apply(e evt) {
 	w.expEmit = nil
 	w.excEnding = false
+	w.stepCatchup = w.catchup
 	c := w.pending
 	switch e.K {
 	case 'x':
@@ -555,6 +561,15 @@ func (w *world) phaseTag() string {
 	return "live"
 }
 
+// stepPhase is the phase the client was in when the current step started (the start-up scan's own setL1Head ends with
+// the client already parked in WatchStateUpdate, which must still be reported as a catch-up step).
+func (w *world) stepPhaseTag() string {
+	if w.stepCatchup {
+		return "catchup"
+	}
+	return "live"
+}
+
 // check is the oracle, evaluated at every quiescent point.
 func (w *world) check(path []evt) *violation {
 	mk := func(class string, extra map[string]any) *violation {
@@ -563,7 +578,7 @@ func (w *world) check(path []evt) *violation {
 		for k, v := range extra {
 			d[k] = v
 		}
-		return &violation{key: class + " phase=" + w.phaseTag(), detail: d}
+		return &violation{key: class + " phase=" + w.stepPhaseTag(), detail: d}
 	}
 	prevID, prevL2 := w.storedID, w.storedL2
 	h, err := w.chain.L1Head()
@@ -708,6 +723,7 @@ func (w *world) modeKey() string {
 //   - the finalised height, capped at the highest block any remaining item could reach;
 //   - model head / stored head / reflected buffer expressed through those positions;
 //   - remaining item budget, client mode, timer phase.
+//
 // Soundness of this projection is cross-checked at run time: (a) every re-arrival at a key must offer the same
 // canonical enabled-event list, (b) selfCheck explores a smaller bound twice, merging on fullKey and on canonKey,
 // and requires the same set of canonical classes.
@@ -796,7 +812,7 @@ type result struct {
 
 func replay(t *testing.T, c *config, path []evt) (res result) {
 	synctest.Test(t, func(t *testing.T) {
-		w := &world{c: c, expHead: -1, storedID: -1, catchup: true, stats: map[string]int64{}}
+		w := &world{c: c, expHead: -1, storedID: -1, catchup: true, stepCatchup: true, stats: map[string]int64{}}
 		for _, d := range c.hist {
 			w.addLog(uint64(d), false)
 		}
@@ -919,6 +935,8 @@ func roots(n int, chunks []uint64) []*config {
 	return out
 }
 
+const layerSlice = 1 << 18
+
 type exploration struct {
 	states, transitions, classes int64
 	classDigest                  [16]byte // xor of all canonical class keys: order-independent identity of the class set
@@ -940,82 +958,102 @@ func explore(t *testing.T, r *ev.Run, pl *pool, n int, mergeFull, report bool) e
 		frontier = append(frontier, node{root: int32(i)})
 	}
 	samples := 0
+	sampleCat := map[string]int{}
 	stop := false
 	var parDur time.Duration
 	for layer := 0; len(frontier) > 0 && !stop; layer++ {
-		tp := time.Now()
-		results, err := pl.run(n, frontier, r.OutOfTime)
-		if err != nil {
-			r.Infra("%v", err)
-		}
-		parDur += time.Since(tp)
-		if os.Getenv("VERIF_C17_TRACE") != "" {
-			fmt.Printf("layer %d: %d nodes, par %.2fs total-par %.2fs\n", layer, len(frontier), time.Since(tp).Seconds(), parDur.Seconds())
-		}
+		whole := frontier
 		var next []node
-		for i := range results {
-			res := &results[i]
-			if res.infra == "timeout" {
-				r.Incomplete(fmt.Sprintf("time budget hit in BFS layer %d of bound n=%d (%d nodes in that layer)", layer, n, len(frontier)))
-				stop = true
-				continue
+		if os.Getenv("VERIF_C17_TRACE") != "" {
+			fmt.Printf("layer %d: %d nodes, %d states so far, replay time so far %.1fs\n", layer, len(whole), len(visited), parDur.Seconds())
+		}
+		for off := 0; off < len(whole) && !stop; off += layerSlice { // bounded memory: a layer is replayed and merged in slices
+			frontier := whole[off:min(off+layerSlice, len(whole))]
+			tp := time.Now()
+			results, err := pl.run(n, frontier, r.OutOfTime)
+			if err != nil {
+				r.Infra("%v", err)
 			}
-			if res.infra != "" {
-				r.Infra("%s at %s path=%v", res.infra, cfgs[frontier[i].root], pathStrings(frontier[i].path))
-			}
-			ex.transitions++
-			if report {
-				for k, v := range res.stats {
-					r.Add("steps_"+k, v) // what the last transition of each execution exercised
+			parDur += time.Since(tp)
+			for i := range results {
+				res := &results[i]
+				if res.infra == "timeout" {
+					r.Incomplete(fmt.Sprintf("time budget hit in BFS layer %d of bound n=%d (%d nodes in that layer)", layer, n, len(whole)))
+					stop = true
+					continue
 				}
-			}
-			if res.viol != nil {
-				res.viol.detail["depth"] = res.depth
-				r.Violate(res.viol.key, res.viol.detail)
+				if res.infra != "" {
+					r.Infra("%s at %s path=%v", res.infra, cfgs[frontier[i].root], pathStrings(frontier[i].path))
+				}
+				ex.transitions++
 				if report {
-					r.Outcome("violation")
+					for k, v := range res.stats {
+						r.Add("steps_"+k, v) // what the last transition of each execution exercised
+					}
 				}
-				continue
-			}
-			if report {
-				r.Outcome(res.label)
-			}
-			mk := res.key
-			if mergeFull {
-				mk = res.full
-			}
-			if _, ok := classes[res.key]; !ok {
-				classes[res.key] = struct{}{}
-				for j := range ex.classDigest {
-					ex.classDigest[j] ^= res.key[j]
+				if res.viol != nil {
+					res.viol.detail["depth"] = res.depth
+					r.Violate(res.viol.key, res.viol.detail)
+					if report {
+						r.Outcome("violation")
+					}
+					continue
 				}
-			}
-			if sig, ok := visited[mk]; ok {
-				if sig != res.ensig {
-					r.Infra("state key is not canonical: same key, different enabled events; second arrival %s path=%v",
-						cfgs[frontier[i].root], pathStrings(frontier[i].path))
+				if report {
+					r.Outcome(res.label)
 				}
-				continue
-			}
-			visited[mk] = res.ensig
-			ex.scripts[res.script] = struct{}{}
-			if res.depth > ex.maxDepth {
-				ex.maxDepth = res.depth
-			}
-			if report {
-				if len(res.enabled) == 0 {
-					r.Add("terminal_states", 1)
+				if report && res.depth >= 7 {
+					// up to two written-out executions per category (first ones met in BFS order)
+					ps := strings.Join(pathStrings(frontier[i].path), " ")
+					moved := strings.Contains(res.label, "head-moved")
+					cat := ""
+					switch {
+					case res.stats["buffered_ticks"] > 0 && strings.Contains(ps, "sub-error") && strings.Contains(ps, "update"):
+						cat = "resubscribe-sleep-swallows-poll-tick"
+					case moved && strings.Contains(ps, "removal"):
+						cat = "reorg"
+					case moved && strings.HasPrefix(res.label, "catchup") && cfgs[frontier[i].root].chunk == 1 && cfgs[frontier[i].root].prior >= 0:
+						cat = "restart-catchup-chunked"
+					}
+					if cat != "" && sampleCat[cat] < 2 {
+						sampleCat[cat]++
+						samples++
+						r.Sample(map[string]any{"category": cat, "config": cfgs[frontier[i].root].String(), "path": pathStrings(frontier[i].path)})
+					}
 				}
-				if samples < 6 && res.depth >= 8 && strings.Contains(res.label, "head-moved") && len(visited)%97 == 0 {
-					samples++
-					r.Sample(map[string]any{"config": cfgs[frontier[i].root].String(), "path": pathStrings(frontier[i].path)})
+				mk := res.key
+				if mergeFull {
+					mk = res.full
 				}
-			}
-			for _, e := range res.enabled {
-				p := make([]evt, len(frontier[i].path)+1)
-				copy(p, frontier[i].path)
-				p[len(p)-1] = e
-				next = append(next, node{root: frontier[i].root, path: p})
+				if _, ok := classes[res.key]; !ok {
+					classes[res.key] = struct{}{}
+					for j := range ex.classDigest {
+						ex.classDigest[j] ^= res.key[j]
+					}
+				}
+				if sig, ok := visited[mk]; ok {
+					if sig != res.ensig {
+						r.Infra("state key is not canonical: same key, different enabled events; second arrival %s path=%v",
+							cfgs[frontier[i].root], pathStrings(frontier[i].path))
+					}
+					continue
+				}
+				visited[mk] = res.ensig
+				ex.scripts[res.script] = struct{}{}
+				if res.depth > ex.maxDepth {
+					ex.maxDepth = res.depth
+				}
+				if report {
+					if len(res.enabled) == 0 {
+						r.Add("terminal_states", 1)
+					}
+				}
+				for _, e := range res.enabled {
+					p := make([]evt, len(frontier[i].path)+1)
+					copy(p, frontier[i].path)
+					p[len(p)-1] = e
+					next = append(next, node{root: frontier[i].root, path: p})
+				}
 			}
 		}
 		frontier = next
